@@ -226,7 +226,16 @@ func vpH_C12_others()   { vpC12Frozen(3 + vpChoice(len(vpTypeNames)-3)) }
 // items that are not vocabulary structs
 func vpH_C12_lists() {
 	var x Item
-	switch vpChoice(5) {
+	switch vpChoice(8) {
+	case 5: // lists that name a member twice (an inspector that "cleans up" the caller's list writes)
+		a := vpMkIRI('a')
+		x = ItemCollection{a, a, vpMkIRI('b'), &Object{ID: a, Type: NoteType}, vpMkIRI('c')}
+	case 6:
+		a := vpMkIRI('a')
+		x = &ItemCollection{&Object{ID: a, Type: NoteType}, a, vpMkIRI('b'), a}
+	case 7:
+		a := vpMkIRI('a')
+		x = IRIs{a, a, vpMkIRI('b'), a}
 	case 3: // lists held by pointer: a helper that gets the caller's own pointer must not store into it
 		x = &IRIs{vpMkIRI('c'), IRI(""), vpMkIRI('a'), IRI("-")}
 	case 4:
